@@ -130,6 +130,11 @@ def families():
         Family('bool_not_depth2', [b1], lambda a: ('un', 'not', a)),
         Family('quant', [quants], lambda a: a),
         Family('quant_not', [quants], lambda a: ('un', 'not', a)),
+        Family('quant_not2', [quants], lambda a: ('un', 'not', ('un', 'not', a))),
+        Family('quant_not3', [quants], lambda a: ('un', 'not', ('un', 'not', ('un', 'not', a)))),
+        Family('bool_not2', [bool_terms(1)], lambda a: ('un', 'not', ('un', 'not', a))),
+        Family('quant_body_not', [['forall', 'exists'], DOMAINS, VAR_BODIES, PLAIN_BODIES, ['and', 'or', 'implies']],
+               lambda qk, dom, b, pl, op: ('q', qk, 'i', dom, ('un', 'not', binop(op, b, pl)))),
         Family('quant_conn', [CONN, quants, bool_terms(0)], lambda op, a, b: binop(op, a, b)),
         Family('quant_conn_r', [CONN, bool_terms(0), quants], lambda op, a, b: binop(op, a, b)),
         Family('bool_cmp', [CONN, [binop(r, a, b) for r in ('=', '<', '>=') for a in NUM_ATOMS for b in NUM_ATOMS], bool_terms(0)], lambda op, a, b: binop(op, a, b)),
@@ -150,4 +155,4 @@ def nth(fams, idx):
 
 
 def boolean_family_names():
-    return {'cmp_depth1', 'bool_depth2', 'bool_not_depth2', 'quant', 'quant_not', 'quant_conn', 'quant_conn_r', 'bool_cmp'}
+    return {'cmp_depth1', 'bool_depth2', 'bool_not_depth2', 'quant', 'quant_not', 'quant_not2', 'quant_not3', 'bool_not2', 'quant_body_not', 'quant_conn', 'quant_conn_r', 'bool_cmp'}
